@@ -58,7 +58,8 @@ class RootDecomposition(Function):
         if ctx.batch_shape is None:
             q_mat = q_mat.unsqueeze(-3)
             t_mat = t_mat.unsqueeze(-3)
-        if t_mat.ndimension() == 3:  # If we only used one probe vector
+        # If we only used one probe vector (the Lanczos routine then returns no probe dimension)
+        if ctx.initial_vectors is None or ctx.initial_vectors.dim() == 1 or ctx.initial_vectors.size(-1) == 1:
             q_mat = q_mat.unsqueeze(0)
             t_mat = t_mat.unsqueeze(0)
         n_probes = t_mat.size(0)
